@@ -67,7 +67,9 @@ def flatten(input_dict: dict[str, Any]) -> dict[str, Any]:
                 )
                 if isinstance(value, dict)
                 else {
-                    json.dumps(parent_keys + [key]): value,
+                    # ensure_ascii=False: escaping would give the two lone surrogates of a pair and the
+                    # astral character they encode the same key text (json.loads joins the escapes).
+                    json.dumps(parent_keys + [key], ensure_ascii=False): value,
                 }
             )
 
